@@ -15,7 +15,7 @@ def main(argv):
     db.load()
     mods = Modules()
     pats = argv or [""]
-    quals = [q for q, c in db.contracts.items() if c.params is not None and not c.opts.get('assumed_contract') and any(p in q for p in pats)]
+    quals = [q for q, c in db.contracts.items() if c.params is not None and not c.opts.get('assumed_contract') and not c.opts.get('rt_only') and any(p in q for p in pats)]
     bad = 0
     for q in quals:
         t1 = time.time()
